@@ -441,6 +441,8 @@ func RunWithConcurrentUse(ck *Check, c *core.Ctx) {
 		probe := freshExplore(c, sub, name, 2, 0, capExec)
 		b2, b3 := core.Pick(c, 2, 3), core.Pick(c, 1, 2)
 		switch {
+		case probe.MaxPoints > 1500:
+			b2, b3 = core.Pick(c, 0, 1), 0
 		case probe.MaxPoints > 120:
 			b2, b3 = 1, core.Pick(c, 0, 1)
 		case probe.MaxPoints > 30:
